@@ -416,6 +416,11 @@ func unknownNumber(t *rapid.T, md protoreflect.MessageDescriptor) protowire.Numb
 	}
 }
 
+// UnknownRecord appends one unknown record for md.
+func (c *StreamCfg) UnknownRecord(t *rapid.T, b []byte, md protoreflect.MessageDescriptor) []byte {
+	return c.unknownRecord(t, b, md, 0)
+}
+
 func (c *StreamCfg) unknownRecord(t *rapid.T, b []byte, md protoreflect.MessageDescriptor, gdepth int) []byte {
 	return c.unknownRecordNum(t, b, unknownNumber(t, md), gdepth)
 }
